@@ -684,6 +684,24 @@ func (c14) Run(ctx *core.RunCtx) {
 			ctx.Fail("liveness", c14KindNames[in.kind]+"|not-terminated", "%s did not terminate although every message was delivered", in)
 			return
 		}
+		// the relinearization protocol's AggregateShares has no error result: a share made for another
+		// decomposition (an instance with other parameters) is either added or runs out of range
+		if in.kind == kRKG && ch.Chance("rkg-foreign-share", 1, 3) {
+			b2x := in.b2 + 3
+			if in.b2 >= 20 {
+				b2x = in.b2 - 7
+			}
+			lq, lp := in.lq, in.lp
+			epx := rlwe.EvaluationKeyParameters{LevelQ: &lq, LevelP: &lp, BaseTwoDecomposition: &b2x}
+			_, foreign, _ := ref.rkg.AllocateShare(epx)
+			_, out, _ := ref.rkg.AllocateShare(in.ep)
+			genuine := r.cloneShare(in, in.pristine[0][0]).(*multiparty.RelinearizationKeyGenShare)
+			pk, _, _ := core.Protect(func() { ref.rkg.AggregateShares(*genuine, foreign, &out) })
+			ctx.Count("oracle.mismatched-share-rejected", 1)
+			if !pk {
+				ctx.Fail("mismatch", "rkg.AggregateShares|combined", "a round-one share allocated for base-two decomposition %d was added to a share of %s: the method has no way to refuse it", b2x, in)
+			}
+		}
 		// oracle 2: the aggregate equals the index-order aggregate with fresh outputs
 		rounds := 1
 		if in.kind == kRKG {
